@@ -695,7 +695,7 @@ class GroupBy:
     def _convert_arr_to_polars_series(self, arr, orig_type) -> pl.Series:
         if arr.dtype.kind == "M":
             ints = arr.view(int)
-            if ints.min() == np.iinfo(np.int64).min:
+            if len(ints) and ints.min() == np.iinfo(np.int64).min:
                 # we have to pass the original array to polars to respect nulls
                 arr = arr
             else:
